@@ -370,6 +370,56 @@ class Oracle:
                 except ValueError:
                     idobs.append((x, None))
             self.id_cases.append((fcontent, net, idobs, back))
+            if n >= 2:
+                self.unresolvable(i, net, names, ids, fcontent)
+
+    def unresolvable(self, i, net, names, ids, fcontent):
+        """one endpoint of one node gets a host name that does not resolve: a reader of that role may refuse the file (loudly), but a reader
+        that answers must still number ALL configured nodes by their rank in the sorted name list, like the readers of the other roles"""
+        import copy as _copy
+        import socket
+        from simulaqron.general.host_config import SocketsConfig, get_node_id_from_net_config
+        bad_host = "endpoint.does-not-resolve.invalid"
+        victim = sorted(names)[(i * 7) % (len(names) - 1)]            # never the last name: its loss would shift nobody
+        role = ROLES[i % len(ROLES)]
+        doc = _copy.deepcopy(fcontent)
+        try:
+            doc[net]["nodes"][victim]["%s_socket" % role][0] = bad_host
+        except (KeyError, TypeError, IndexError):
+            return
+        path2 = self.drv.path + ".unresolvable.json"
+        with open(path2, "w") as fh:
+            json.dump(doc, fh)
+        real = socket.getaddrinfo
+
+        def fake(host, *a, **k):
+            if host == bad_host:
+                raise socket.gaierror(socket.EAI_NONAME, "Name or service not known")
+            return real(host, *a, **k)
+        socket.getaddrinfo = fake
+        try:
+            for r in ROLES:
+                try:
+                    sc = SocketsConfig(path2, network_name=net, config_type=r)
+                except socket.gaierror:
+                    self.stats["unresolvable_refused"] = self.stats.get("unresolvable_refused", 0) + 1
+                    continue
+                except Exception as e:                               # noqa: BLE001
+                    self.fail("id_bijection", i, "reading role %s of a file with an unresolvable host raised %r" % (r, e))
+                    continue
+                self.stats["unresolvable_answered"] = self.stats.get("unresolvable_answered", 0) + 1
+                got = []
+                for x in names:
+                    try:
+                        got.append(get_node_id_from_net_config(sc, x))
+                    except Exception as e:                           # noqa: BLE001
+                        got.append(repr(e))
+                if got != ids:
+                    self.fail("id_bijection", i, "a reader of role %s of a file in which %s's %s host does not resolve numbers the nodes %r -> %r, the other readers %r"
+                              % (r, victim, role, names, got, ids))
+        finally:
+            socket.getaddrinfo = real
+            os.remove(path2)
 
 
 def run_ops(path, ops, probe, lookups=True):
